@@ -6,3 +6,4 @@ open GoMail.Props.C17
 #print axioms reset_never_waits_unbounded
 #print axioms dial_arms_first
 #print axioms no_path_keeps_a_lock
+#print axioms every_connection_attempt_gets_the_bounded_context
